@@ -600,6 +600,8 @@ func (m *scanModel) effects(cfg smConfig, p *Path, t *smTrans) {
 	gorNow := gorStr
 	idxNow := "s.goroutineIndex"
 	pendingLast := false
+	emptyPrealloc := false
+	var emptyPos token.Pos
 	lastBeforeAppend := false
 	var lastBeforePos token.Pos
 	var pendingPos token.Pos
@@ -773,6 +775,7 @@ func (m *scanModel) effects(cfg smConfig, p *Path, t *smTrans) {
 				if el, ok := isAppendTo(ev.Val, gorNow); ok {
 					_ = el
 					appended = true
+					emptyPrealloc = false
 					f.Gne = true
 					f.C, f.B = false, false
 					if pendingLast {
@@ -793,6 +796,7 @@ func (m *scanModel) effects(cfg smConfig, p *Path, t *smTrans) {
 					if cfg.Gne {
 						problem("SM-append", "state:"+cfg.State+"/goroutines-reset", "s.Goroutines is replaced while it holds goroutines", ev.Pos)
 					}
+					emptyPrealloc, emptyPos = true, ev.Pos
 				} else {
 					eff["goroutines:=other"] = true
 					problem("SM-append", "state:"+cfg.State+"/goroutines-other", "s.Goroutines is written by something else than an append at the end: "+ev.Val.Canon(m.hook), ev.Pos)
@@ -814,6 +818,10 @@ func (m *scanModel) effects(cfg smConfig, p *Path, t *smTrans) {
 		case EvMapUpd, EvSend, EvGo, EvDefer:
 			problem("SM-ref", "state:"+cfg.State+"/"+ev.Kind, "unexpected "+ev.Kind+" in scan", ev.Pos)
 		}
+	}
+	if emptyPrealloc {
+		// "non-nil" means "has goroutines" to ScanSnapshot and its callers
+		problem("SM-append", "state:"+cfg.State+"/goroutines-empty", "s.Goroutines is set to an empty, non-nil list and the line ends without a goroutine being appended: ScanSnapshot takes non-nil for 'a dump was found' and returns a snapshot without goroutines, whose first goroutine IsRace and the renderers then index", emptyPos)
 	}
 	if pendingLast {
 		eff["index:=other"] = true
